@@ -10,8 +10,9 @@ from harness.c01 import resolve, collect_slots, num
 
 PROPERTY = "C18"
 LEVEL = "model_checking"
-BOUNDS = {"hours_per_series": "N=2", "skeletons": "T1,T2,T3,T4,T5,T7,T9", "recomputation requests": "each object alone; every "
+BOUNDS = {"hours_per_series": "N=2", "skeletons": "T1,T2,T3,T4,T5,T7,T9", "recomputation requests": "each object alone; each update function alone; every "
           "ordered pair of objects (T1, T3 sample); the full chain; System.after_init() again; after a depth-1 edit",
+          "inputs": "every numeric input compared with the value given, after computing and after recomputing (durations symbolic, not whole hours)",
           "reads": "explain(), str(), to_json, system_to_json (with/without calculated attributes), the *_sum_over_period "
                    "and total_* views"}
 ASSUMPTIONS = ["plotting functions (matplotlib/plotly) are outside the encoding", "physical comparison: an in-place "
@@ -30,9 +31,32 @@ def _sym(spec):
     return sym
 
 
+def check_inputs(ctx, spec, env, objs, label):
+    """every numeric input still has the physical value the model was given"""
+    from harness.c10 import slots_of
+    n = 0
+    for (slot, param, default, un) in slots_of(spec):
+        name = slot.split(".")[0]
+        given = env.get(slot, default)
+        unit = env.units.get(slot, un)
+        f = V.base_factor(M.u(unit).units)[0]
+        got = V.quantity_base(getattr(objs[name], param).value)[1]
+        ctx.eq(got, given * f, f"{label}: input {slot} keeps its physical value")
+        n += 1
+    ctx.require(n > 0, f"{label}: inputs were compared")
+
+
 def h_fixed_point(ctx, skeleton, mode, n=2, args=None, edit=None, pair_sample=None):
     spec = M.SKELETONS[skeleton](n, **(args or {}))
     sym = _sym(spec)
+    if mode == "inputs":
+        # durations that are not whole hours / minutes, so that rounding steps inside the computation have something to do
+        from fractions import Fraction as F
+        sym.update(sym_slots(spec, [("storages", "data_storage_duration", 0, F(3, 8766), (F(1, 8766), F(2, 8766))),
+                                    ("jobs", "request_duration", 0, 7200, (1, 5000)),
+                                    ("steps", "user_time_spent", 0, 119, (1, 100)),
+                                    ("devices", "lifespan", 0, 100, (1, 10)),
+                                    ("servers", "lifespan", 0, 100, (1, 10))], strict_lo=("data_storage_duration", "request_duration", "lifespan")))
     if edit:
         sym.update(collect_slots(spec, [edit]))
     env = M.Env(ctx, symbolic=sym)
@@ -53,7 +77,20 @@ def h_fixed_point(ctx, skeleton, mode, n=2, args=None, edit=None, pair_sample=No
                             skip_attrs=("initial_total_energy_footprints_sum_over_period",
                                         "initial_total_fabrication_footprints_sum_over_period"))
 
-    if mode == "each":
+    if mode == "inputs":
+        check_inputs(ctx, spec, env, objs, "after computing the system")
+        for nm in names:
+            objs[nm].compute_calculated_attributes()
+        check_inputs(ctx, spec, env, objs, "after recomputing every object")
+        check("after recomputing every object")
+    elif mode == "attrs":
+        # every update function alone ("every subset of explicit recomputation requests", at attribute granularity)
+        for nm in names:
+            o = objs[nm]
+            for attr in o.calculated_attributes:
+                getattr(o, f"update_{attr}")()
+                check(f"after recomputing {nm}.{attr} alone")
+    elif mode == "each":
         for nm in names:
             objs[nm].compute_calculated_attributes()
             check(f"after recomputing {nm} alone")
@@ -114,6 +151,9 @@ def plan(tier, seed):
     for sk in ("T1", "T4", "T5"):
         p.append(("fixed_point", dict(skeleton=sk, mode="reads")))
     p.append(("fixed_point", dict(skeleton="T1", mode="pairs")))
+    for sk in ("T1", "T7"):
+        p.append(("fixed_point", dict(skeleton=sk, mode="attrs")))
+    p.append(("fixed_point", dict(skeleton="T1", mode="inputs")))
     p.append(("fixed_point", dict(skeleton="T3", mode="pairs", pair_sample=seed + 1)))
     p.append(("fixed_point", dict(skeleton="T5", mode="each", args={"type1": "on-premise", "type2": "autoscaling", "fixed1": 4})))
     p.append(("fixed_point", dict(skeleton="T1", mode="each", edit=num("job", "data_stored"))))
@@ -125,4 +165,8 @@ def plan(tier, seed):
         for sk in ("T1", "T3", "T5", "T7", "T9"):
             p.append(("fixed_point", dict(skeleton=sk, mode="each", n=3, edit=num("job", "request_duration"))))
         p.append(("fixed_point", dict(skeleton="T3", mode="pairs", n=2)))
+        for sk in ("T2", "T3", "T4", "T5", "T9"):
+            p.append(("fixed_point", dict(skeleton=sk, mode="attrs")))
+        for sk in ("T3", "T5", "T7"):
+            p.append(("fixed_point", dict(skeleton=sk, mode="inputs")))
     return p
